@@ -257,6 +257,9 @@ def call_rate(model, teams, g, reentrant=None, history=None):
                 out = model.rate(teams, kw["ranks"], **rest) if "ranks" in kw else model.rate(teams, None, kw["scores"], **rest)
         elif h % 8 == 5:
             out = in_thread(lambda: model.rate(teams, **kw))
+        elif h % 8 == 7:
+            with odd_ambient():
+                out = model.rate(teams, **kw)
         else:
             out = model.rate(teams, **kw)
         if sel is not None and (len(sel) != len(before) or any(a is not b and a != b for a, b in zip(sel, before))):
@@ -308,6 +311,26 @@ def call_rate(model, teams, g, reentrant=None, history=None):
         return model.rate(teams, **kw)
     finally:
         model.gamma = orig
+
+
+import contextlib as _ctxlib
+
+
+@_ctxlib.contextmanager
+def odd_ambient():
+    """process-wide settings an application may have changed and that must not matter to the library: the decimal context (precision 5,
+    traps as usual), the warnings filter ("error": a warning emitted on a valid call becomes an exception), the random module's state"""
+    import decimal as _dec, warnings as _w, random as _r
+    st = _r.getstate()
+    CALL_STATS["calls_under_odd_ambient_settings"] = CALL_STATS.get("calls_under_odd_ambient_settings", 0) + 1
+    with _dec.localcontext() as c_, _w.catch_warnings():
+        c_.prec = 5
+        _w.simplefilter("error")
+        _r.seed(12345)
+        try:
+            yield
+        finally:
+            _r.setstate(st)
 
 
 def in_thread(fn):
@@ -426,11 +449,12 @@ def history_prelude(model, teams, g, h):
       2  a valid call on OTHER rating objects that shares the caller's ranks/scores list object, whose contents are then edited in
          place (a re-used buffer);
       3  a valid unrelated game with other team count and options on the same model;
+      5  the three predictions about this very lobby asked just before; a re-tuned shallow copy of the model rating a game of its own;
       4  the SAME rating objects played an earlier game while they held other values (last season: lower sigma, shifted mu; limit_sigma
          on), and were then assigned this game's prior values.
     After every history the rating objects hold exactly the prior values again; the result of the call under test is compared with the
     model as usual, so any trace a history leaves shows up as an ordinary mismatch."""
-    mode = (h // 3) % 5
+    mode = (h // 3) % 6
     prior = [[(p.mu, p.sigma) for p in t] for t in teams]
     n = len(teams)
 
@@ -507,6 +531,21 @@ def history_prelude(model, teams, g, h):
                 pass
             sel[:] = keep                                                       # ... then overwritten in place with this game's outcome
             SEL_OBJECT[id(g)] = sel                                             # and passed, the same list object, to the call under test
+    elif mode == 5:
+        # the three predictions about this very lobby (same objects, same order) were asked of the model just before the game is rated;
+        # and a shallow copy of the model, re-tuned, rated a game of its own
+        try:
+            model.predict_win(teams); model.predict_draw(teams); model.predict_rank(teams)
+        except Exception:  # noqa: BLE001
+            pass
+        try:
+            import copy as _copy
+            twin = _copy.copy(model)
+            twin.tau, twin.beta, twin.limit_sigma = g["tau"] * 4.0 + 0.5, g["beta"] * 0.5, not g["ls"]
+            twin.rate([[twin.rating(mu=g["beta"] * 5, sigma=g["beta"])], [twin.rating(mu=g["beta"] * 6, sigma=g["beta"] * 2)]])
+        except Exception:  # noqa: BLE001
+            pass
+        restore(True, "predictions about the lobby / a game rated by a re-tuned shallow copy of the model")
     elif mode == 4:
         for t in teams:
             for p in t:
